@@ -484,9 +484,11 @@ func c194(c *an.Ctx, p *an.Prog) {
 	{
 		var bad []string
 		var wd *ssa.Function
+		var wdSite *ssa.Go
 		for _, gs := range p.GoSites() {
 			if gs.Parent == rh && len(gs.Callees) == 1 {
 				wd = gs.Callees[0]
+				wdSite = gs.In
 			}
 		}
 		if wd == nil {
@@ -500,7 +502,16 @@ func c194(c *an.Ctx, p *an.Prog) {
 						case "(*os.Process).Kill":
 							kills = true
 						case "time.NewTimer", "time.After":
-							if k, ok := ci.Common().Args[0].(*ssa.Const); ok && k.Int64() > 0 {
+							lim := ci.Common().Args[0]
+							if pr, ok := lim.(*ssa.Parameter); ok && pr.Parent() == wd && wdSite != nil && wdSite.Call.StaticCallee() == wd {
+								// the limit is handed to the watchdog where it is started
+								for i, q := range wd.Params {
+									if q == pr && i < len(wdSite.Call.Args) {
+										lim = wdSite.Call.Args[i]
+									}
+								}
+							}
+							if k, ok := lim.(*ssa.Const); ok && k.Value != nil && k.Int64() > 0 {
 								timer = true // the limit's value (one minute today) is documentation, not part of the property
 							}
 						case "(*os/exec.Cmd).Wait":
